@@ -31,8 +31,16 @@ def build(tier, seed):
     def k_features():
         src = features_src()
         gate = gate_stmt()
+        fun = rd('ir/function.rs')
+        abi_fn = extract(fun, r'^    pub\(crate\) fn abi\(', what='FunctionSig::abi')
+        j = abi_fn.rfind('match abi {')
+        if j < 0:
+            raise SliceError('FunctionSig::abi: feature gate match not found')
+        gate_match = abi_fn[j:match_brace(abi_fn, abi_fn.index('{', j))].replace('crate::codegen::error::', 'crate_codegen_error::')
+        abi_enum = extract(fun, r'^pub enum Abi \{', what='enum Abi')
         text = src + '\n' + open(os.path.join(HD, 'c14_features.rs')).read() + '\n' + \
-            open(os.path.join(HD, 'c14_gate.rs')).read().replace('/*GATE*/', gate)
+            open(os.path.join(HD, 'c14_gate.rs')).read().replace('/*GATE*/', gate) + '\n' + \
+            open(os.path.join(HD, 'c14_abi_gate.rs')).read().replace('/*ABI_ENUM*/', abi_enum).replace('/*GATE_MATCH*/', gate_match)
         k = Kernel(name='features')
         k.files = {'src/lib.rs': '#![allow(warnings)]\npub mod features;\n', 'src/features.rs': text}
         k.cargo_features = ['__cli']
@@ -57,8 +65,11 @@ def build(tier, seed):
             H('edition_gate_rejects_exactly_unavailable', path=G + 'edition_gate_rejects_exactly_unavailable',
               desc='Builder::generate gate statement: Err(UnsupportedEdition) <=> edition not available; else features = new(target, edition|latest)',
               sample={'target': 'any accepted (minor>=51 or nightly)', 'edition': 'None or any of 3'}),
+            H('abi_gate_respects_target', path='features::abi_gate::proofs::abi_gate_respects_target',
+              desc='FunctionSig::abi feature gate x real RustFeatures: an ABI is accepted exactly when the target has it (thiscall 1.73, C-unwind 1.71, efiapi 1.68, vectorcall nightly); variadic win64 rejected',
+              sample={'target': 'any', 'abi': 'any of 10', 'variadic': 'bool'}),
         ]
-        k.encoded = [enc('features.rs', 'whole file (minus #[cfg(test)] mod)', rd('features.rs')), enc('lib.rs', 'Builder::generate edition gate statement', gate)]
+        k.encoded = [enc('ir/function.rs', 'FunctionSig::abi: feature gate match', gate_match), enc('features.rs', 'whole file (minus #[cfg(test)] mod)', rd('features.rs')), enc('lib.rs', 'Builder::generate edition gate statement', gate)]
         k.stubs = ['Builder/Options/BindgenError: three-field stub around the sliced gate statement']
         k.assumptions = ['gate harness: target was built by RustTarget::stable/nightly/from_str (minor >= 51), as every public constructor guarantees (checked by stable_constructor_and_constants)']
         k.bounds = ['minor, patch: all u64; editions: all; unwind 6 (feature/edition slices), 12 (release table)']
